@@ -779,9 +779,11 @@ fn judge_archive(path: &str, expected: &[String], reference: &Reference, rep: &m
     want.push("model.aeon".to_string());
     want.push("formulae.txt".to_string());
     want.sort();
-    let got: Vec<String> = entries.keys().cloned().collect();
+    // additional entries that the loader ignores (not `.bdd`) are not a difference
+    let all: Vec<String> = entries.keys().cloned().collect();
+    let got: Vec<String> = all.iter().filter(|n| n.ends_with(".bdd") || want.contains(*n)).cloned().collect();
     if got != want {
-        rep.violate("archive_differs", format!("{how}: entries {got:?}, expected {want:?}"));
+        rep.violate("archive_differs", format!("{how}: entries {all:?}, expected {want:?}"));
         return;
     }
     let ftxt = String::from_utf8_lossy(&entries["formulae.txt"]).to_string();
